@@ -657,6 +657,9 @@ pub enum CState {
     HeldAfter,
     Pipelined,
     ReplyStalled,
+    /// connected and a full request sent, but never accepted: the server runs with max_connections 1
+    /// and another connection holds the slot
+    Queued,
 }
 
 const BIG_REPLY: usize = 8 * 1024 * 1024;
@@ -677,7 +680,8 @@ fn pending_events(st: &CState) -> Vec<&'static str> {
 }
 
 pub fn c16_case(dir: &Path, states: &[CState], order: &[usize]) -> Result<String, V> {
-    let mut srv = Srv::start(dir, &SrvCfg { max_connections: 8, max_file_size: 1 << 31, gated: true }).map_err(mach)?;
+    let maxc = if states.contains(&CState::Queued) { 1 } else { 8 };
+    let mut srv = Srv::start(dir, &SrvCfg { max_connections: maxc, max_file_size: 1 << 31, gated: true }).map_err(mach)?;
     let nc = states.len();
     let mut socks: Vec<TcpStream> = vec![];
     let mut held_op: Vec<Option<usize>> = vec![None; nc];
@@ -694,6 +698,9 @@ pub fn c16_case(dir: &Path, states: &[CState], order: &[usize]) -> Result<String
             let e0 = srv.epoch();
             match st {
                 CState::Idle0 => {}
+                CState::Queued => {
+                    s.write_all(&set_req(c).encode()).map_err(|e| mach(e.to_string()))?;
+                }
                 CState::Idle1 => {
                     let n0 = srv.gate.n_ops();
                     s.write_all(&Req::Set(format!("i{}", c).into_bytes(), b"1".to_vec()).encode()).map_err(|e| mach(e.to_string()))?;
@@ -854,6 +861,9 @@ pub fn c16_case(dir: &Path, states: &[CState], order: &[usize]) -> Result<String
             if matches!(states[c], CState::Prefix(_)) && in_store.is_some() {
                 return Err(("incomplete-request-was-applied".into(), format!("client {} sent only a prefix of SET {} but the key exists", c, hex(&key))));
             }
+            if states[c] == CState::Queued && (in_store.is_some() || !frames.is_empty()) {
+                return Err(("never-accepted-connection-was-served".into(), format!("client {} was waiting for a slot when the shutdown fired, yet its SET {} was applied / answered ({} replies)", c, hex(&key), frames.len())));
+            }
             if states[c] == CState::Idle1 {
                 let k = format!("i{}", c).into_bytes();
                 if srv.handle.get(Bytes::from(k)).ok().flatten().as_deref() != Some(&b"1"[..]) {
@@ -905,6 +915,12 @@ fn c16_cases(tier: Tier) -> Vec<(Vec<CState>, Vec<usize>)> {
             }
         }
     }
+    // a connection that waits for a slot (max_connections 1) while the shutdown fires
+    let mid = set_req(0).encode().len() / 2;
+    for a in [CState::Idle0, CState::Idle1, CState::HeldBefore, CState::HeldAfter, CState::Pipelined, CState::Prefix(mid)] {
+        let k = pending_events(&a).len();
+        cases.push((vec![a, CState::Queued], vec![0; k]));
+    }
     cases
 }
 
@@ -954,6 +970,7 @@ fn parse_cstate(s: &str) -> Option<CState> {
         "HeldAfter" => Some(CState::HeldAfter),
         "Pipelined" => Some(CState::Pipelined),
         "ReplyStalled" => Some(CState::ReplyStalled),
+        "Queued" => Some(CState::Queued),
         _ => s.strip_prefix("Prefix(").and_then(|r| r.trim_end_matches(')').parse().ok()).map(CState::Prefix),
     }
 }
@@ -1083,7 +1100,24 @@ pub fn c10_case(dir: &Path, stream: &[u8], ending: Ending, a_first: bool) -> Res
             o => return Err(("fresh-connection-not-served".into(), format!("GET ctl on a fresh connection: {:?}", o.map(|x| x.0)))),
         }
         // stored data changed only through well-formed commands
-        let keys: Vec<Vec<u8>> = vec![b"ctl".to_vec(), b"a".to_vec(), b"b".to_vec(), b"0".to_vec(), b"1".to_vec(), b"9".to_vec(), vec![], b"\xff".to_vec(), b"k".to_vec()];
+        let mut keys: Vec<Vec<u8>> = vec![b"ctl".to_vec(), b"a".to_vec(), b"b".to_vec(), b"0".to_vec(), b"1".to_vec(), b"9".to_vec(), vec![], b"\xff".to_vec(), b"k".to_vec(), b"x".to_vec(), b"a0".to_vec(), b"a1".to_vec(), b"a2".to_vec(), b"a3".to_vec(), b"\xff\xfe".to_vec(), b"SET".to_vec(), b"GET".to_vec(), b"DEL".to_vec()];
+        // every short bulk-string payload that occurs anywhere in the hostile stream is a potential key
+        {
+            let mut i = 0;
+            while i < stream.len() && keys.len() < 64 {
+                if stream[i] == b'$' {
+                    if let Ok((Some(n), q)) = crate::model::ref_decimal(stream, i + 1) {
+                        if (0..=32).contains(&n) && q + n as usize <= stream.len() {
+                            let k = stream[q..q + n as usize].to_vec();
+                            if !keys.contains(&k) {
+                                keys.push(k);
+                            }
+                        }
+                    }
+                }
+                i += 1;
+            }
+        }
         let contents = srv.store_contents(&keys);
         let mut mk = model.clone();
         mk.retain(|k, _| keys.contains(k));
@@ -1286,7 +1320,7 @@ pub fn report_meta(prop: &str, tier: Tier, common: Vec<String>) -> (String, Valu
             common,
         ),
         "C16" => (
-            format!("1 and 2 connections, each driven into one of the holdable states {{idle before any command, idle after an acknowledged command, having sent each strict prefix of a SET request (every truncation point), command held before the store, command held after the store call, two pipelined requests with the first held, an 8 MiB reply being written to a client that does not read}}; then the shutdown signal fires; then the remaining release / resume events run in every order ({} cases). Oracle: run() has not returned while a command is in flight and returns within 6 s once everything is released; a command in flight is neither answered nor torn before it is released and is answered completely afterwards; every client's byte stream parses as complete replies followed by end of stream; acknowledged commands are in the store afterwards; an incomplete request changes nothing.", c16_cases(tier).len()),
+            format!("1 and 2 connections, each driven into one of the holdable states {{idle before any command, idle after an acknowledged command, having sent each strict prefix of a SET request (every truncation point), command held before the store, command held after the store call, two pipelined requests with the first held, an 8 MiB reply being written to a client that does not read, waiting for a slot behind another connection (max_connections 1)}}; then the shutdown signal fires; then the remaining release / resume events run in every order ({} cases). Oracle: run() has not returned while a command is in flight and returns within 6 s once everything is released; a command in flight is neither answered nor torn before it is released and is answered completely afterwards; every client's byte stream parses as complete replies followed by end of stream; acknowledged commands are in the store afterwards; an incomplete request changes nothing.", c16_cases(tier).len()),
             json!({"cases": c16_cases(tier).len(), "states": c16_states(tier).iter().map(|s| format!("{:?}", s)).collect::<Vec<_>>()}),
             common,
         ),
